@@ -551,6 +551,12 @@ def cmd_check(check_name, tier, max_runs=None):
     write_evidence(check, tier, agg, batch_seed, nv, wall)
     print('%s: runs=%d distinct_nontrivial=%d abandoned=%s wall=%.1fs rc=%d' % (
         check.ID, agg['runs'], len(agg['nontrivial']), dict(agg['abandoned']), wall, rc))
+    nab = sum(agg['abandoned'].values())
+    if agg['runs'] and nab * 5 > agg['runs'] and check.ID != 'C19':
+        # informational only (never changes the exit status): runs set aside as "somebody else's business" explore nothing; on
+        # the unchanged tree this stays far below the threshold for every check but C19 (whose generator rejects scenarios)
+        print('NOTE: %d of %d runs of %s were abandoned %s - what they would have shown is for the named owners to tell; run those checks too' % (
+            nab, agg['runs'], check.ID, dict(agg['abandoned'])))
     return rc
 
 
